@@ -202,10 +202,60 @@ pub fn run_case(case: &Value) -> Value {
     };
     out["pred_notags"] = json!(ps(&p0));
     out["pred_tags"] = json!(ps(&p1));
+    // evaluation sentences may carry (partial) annotations: the features the TRAINER extracts for their annotated
+    // boundaries are read back from a second trainer with the same configuration
+    let eval_specs: Vec<Value> = case["eval"].as_array().cloned().unwrap_or_default();
+    let eval_sents: Vec<Option<Sentence>> = eval_specs
+        .iter()
+        .map(|t| {
+            if t.is_object() {
+                parse_sent(t).ok()
+            } else {
+                None
+            }
+        })
+        .collect();
+    let mut extracted: Vec<Value> = vec![Value::Null; eval_specs.len()];
+    {
+        let r = catch_unwind(AssertUnwindSafe(|| {
+            let empty: Vec<Sentence> = vec![];
+            let mut t2 = Trainer::new(u8of("cw"), u8of("cn"), u8of("tw"), u8of("tn"), dict.clone(), u8of("dn"), &empty).map_err(|_| ())?;
+            let mut seen = 0usize;
+            let mut res = vec![];
+            for s in &eval_sents {
+                match s {
+                    Some(s) => {
+                        t2.add_example(s);
+                        let ex = t2.verif_examples();
+                        let new: Vec<Value> = ex[seen..]
+                            .iter()
+                            .map(|(fs, _)| Value::Array(fs.iter().map(|(f, c)| json!({"f": feat_json(f), "cnt": *c as i64})).collect()))
+                            .collect();
+                        seen = ex.len();
+                        res.push(Value::Array(new));
+                    }
+                    None => res.push(Value::Null),
+                }
+            }
+            Ok::<_, ()>(res)
+        }));
+        if let Ok(Ok(res)) = r {
+            extracted = res;
+        } else {
+            out["extract_failed"] = json!(true);
+        }
+    }
     let mut evals = vec![];
-    for t in case["eval"].as_array().cloned().unwrap_or_default() {
-        let text = cps_to_string(&t);
+    for (ei, t) in eval_specs.iter().enumerate() {
+        let (text, t) = match &eval_sents[ei] {
+            Some(s) => (s.as_raw_text().to_string(), str_to_cps(s.as_raw_text())),
+            None => (cps_to_string(t), t.clone()),
+        };
         let mut e = json!({"text": t});
+        if let Some(s) = &eval_sents[ei] {
+            e["labels"] = json!(s.boundaries().iter().map(|&b| b as u8).collect::<Vec<_>>());
+            e["feats"] = extracted[ei].clone();
+        }
         if let Ok(Ok(p)) = &p0 {
             let r = catch_unwind(AssertUnwindSafe(|| {
                 let mut s = Sentence::from_raw(text.clone()).map_err(|_| ())?;
